@@ -334,6 +334,39 @@ example : KPos (.mul (.const ⟨2⟩) (.rbf ⟨3⟩)) := by
   constructor <;> simp [KPos]
 
 -- @site GaussianProcess::set_parameters
+/-- `set_parameters(θ)` IS a fresh `train` with the kernel rebuilt from `θ` on the stored data and noise model — for any
+    valid `θ`, not only the current parameters -/
+theorem set_parameters_eq_train (gp : Gp R) (θ : List R) (k' : Kern R) (hl : θ.length = gp.kernel.nParameters)
+    (hk : gp.kernel.reparameterize θ = .ok k') :
+    setParameters gp θ = train k' gp.xTrain gp.yTrain gp.noise := by
+  unfold setParameters
+  rw [consume_parameters_exact gp.kernel θ k' hl hk]
+  rfl
+
+example : (Kern.mul (.const (⟨2⟩ : R)) (.rbf ⟨3⟩)).reparameterize [⟨0⟩, ⟨1⟩]
+    = .ok (.mul (.const (RealLike.exp ⟨0⟩)) (.rbf (RealLike.exp ⟨1⟩))) := by
+  have h0 : RealLike.le (RealLike.exp (⟨0⟩ : R)) (0.0 : R) = false := by
+    rw [R.le_false_iff, R.exp_val, zero_val]; exact not_le.mpr (Real.exp_pos _)
+  have h1 : RealLike.le (RealLike.exp (⟨1⟩ : R)) (0.0 : R) = false := by
+    rw [R.le_false_iff, R.exp_val, zero_val]; exact not_le.mpr (Real.exp_pos _)
+  simp [Kern.reparameterize, Kern.nParameters, leafNew, h0, h1]
+  rfl
+
+-- @site GaussianProcess::set_parameters
+/-- … hence NO cached field of the new process is stale: the factor is the Cholesky factor of `kernel(θ) + noise` on the
+    stored inputs, and the dual coefficients `alpha` and the inverse `k_inv` are solved with THAT factor (a refit that kept
+    the old `alpha` would violate the third conjunct); the data and the noise model are carried over -/
+theorem set_parameters_refits_all (gp gp' : Gp R) (θ : List R) (k' : Kern R) (hl : θ.length = gp.kernel.nParameters)
+    (hk : gp.kernel.reparameterize θ = .ok k') (h : setParameters gp θ = .ok gp') :
+    gp'.kernel = k' ∧ gp'.xTrain = gp.xTrain ∧ gp'.yTrain = gp.yTrain ∧ gp'.noise = gp.noise
+      ∧ (∃ K, addNoise gp.noise (covMat k' gp.xTrain gp.xTrain) = .ok K ∧ cholesky K = some gp'.chol)
+      ∧ gp'.alpha = cholSolve gp'.chol gp.yTrain ∧ gp'.kInv = cholInverse gp'.chol := by
+  rw [set_parameters_eq_train gp θ k' hl hk] at h
+  obtain ⟨h1, h2, h3, h4⟩ := train_fields h
+  obtain ⟨K, hK, hc, ha, hi⟩ := train_coherent h
+  exact ⟨h1, h2, h3, h4, ⟨K, hK, hc⟩, ha, hi⟩
+
+-- @site GaussianProcess::set_parameters
 /-- extra parameters are rejected with their count -/
 theorem set_parameters_extra (gp : Gp R) (hk : KPos gp.kernel) (extra : List R) (he : extra ≠ []) :
     setParameters gp (parameters gp ++ extra) = .error (.kernel (.extraneous extra.length)) := by
@@ -376,5 +409,7 @@ end C17
 #print axioms C17.noise_uniform_eq_perPoint_sq
 #print axioms C17.noise_parametrisation_counterexample
 #print axioms C17.set_parameters_roundtrip
+#print axioms C17.set_parameters_eq_train
+#print axioms C17.set_parameters_refits_all
 #print axioms C17.set_parameters_extra
 #print axioms C17.set_parameters_missing
